@@ -201,7 +201,9 @@ type Run struct {
 	Quantum time.Duration
 	// HistoryCap bounds Res.History.
 	HistoryCap int
-	stop       bool
+	// SimDeadline (simulated time since the start of the run; 0 = none) ends RunUntil with OutIdle.
+	SimDeadline time.Duration
+	stop        bool
 }
 
 func (r *Run) Fail(prop, oracle, key, format string, a ...any) {
@@ -359,6 +361,9 @@ func (r *Run) RunUntil(cond func() bool, idleQuanta int) Outcome {
 		if r.Res.Steps >= r.MaxSteps {
 			r.Res.Budget = true
 			return OutBudget
+		}
+		if r.SimDeadline > 0 && r.Now() > r.SimDeadline {
+			return OutIdle
 		}
 		if r.Step() {
 			idle = 0
